@@ -170,8 +170,12 @@ class Validator(SchemaVisitor[ValidationResult]):
                     return result.add_error(ValueValidationError(path, value, schema.props.value))
             else:
                 scale_factor = 10 ** schema.props.precision
-                scaled_actual = round(value * scale_factor)
-                scaled_expected = round(schema.props.value * scale_factor)
+                try:
+                    scaled_actual = round(value * scale_factor)
+                    scaled_expected = round(schema.props.value * scale_factor)
+                except (OverflowError, ValueError):
+                    # inf, nan or a float too large for the precision grid: compare as is
+                    scaled_actual, scaled_expected = value, schema.props.value
                 if not isclose(scaled_expected, scaled_actual, rel_tol=0, abs_tol=0):
                     return result.add_error(ValueValidationError(path, value, schema.props.value))
 
